@@ -82,7 +82,7 @@ def processLine (line : String) : String :=
             script.mapM? (fun o => o.str?.bind Outcome.parse?) with
       | some evt, some src, some dst, some script =>
         let rpc := wiring.startsWith "rpc"
-        let fixed := wiring.endsWith "fixed"   -- compare with the model of the repaired code (notes/C16.fix.patch)
+        let fixed := codeFixed || wiring.endsWith "fixed"   -- the model of the code as it is
         let strict := flavour == "strict"
         if mode == "FAIRMQ" then
           let m := (commitFMQ fixed evt src dst).run fmqDev strict (fmqOf src) script
